@@ -151,6 +151,30 @@ theorem crop_deciding_attr {m m' : MeshVal α} (h : WF m) {k : AttrKey} {inside 
     rw [this]
     simp [← hd, keepAt_map_self]
 
+/-- "and nothing else": the contract determines the output completely — two meshes satisfying it for the same input
+    are equal -/
+theorem cropContract_unique {m a b : MeshVal α} {k : AttrKey} {inside : α → Bool}
+    (ha : CropContract k inside m a) (hb : CropContract k inside m b) : a = b := by
+  unfold CropContract at ha hb
+  cases hd : m.attr? k with
+  | none => rw [hd] at ha; exact ha.elim
+  | some d =>
+    rw [hd] at ha hb
+    obtain ⟨a1, a2, a3, a4⟩ := ha
+    obtain ⟨b1, b2, b3, b4⟩ := hb
+    cases a; cases b
+    simp only at a1 a2 a3 a4 b1 b2 b3 b4
+    simp only [MeshVal.mk.injEq]
+    exact ⟨a1.trans b1.symm, a3.trans b3.symm, a2.trans b2.symm, a4.trans b4.symm⟩
+
+/-- the survivors: every value of the deciding attribute in the result is inside, and their number is the number of
+    inside values of the input (nothing inside is lost, nothing outside is kept) -/
+theorem crop_survivors {m m' : MeshVal α} (h : WF m) {k : AttrKey} {inside : α → Bool} {d : List α}
+    (hd : m.attr? k = some d) (hne : d.filter inside ≠ []) (hm : m.crop k inside = some m') :
+    ∃ d', m'.attr? k = some d' ∧ (∀ x ∈ d', inside x = true) ∧ d'.length = d.countP inside ∧ d'.Sublist d :=
+  ⟨_, crop_deciding_attr h hd hne hm, fun _ hx => (List.mem_filter.mp hx).2, (List.countP_eq_length_filter ..).symm,
+    List.filter_sublist⟩
+
 /-- a non-identity cloud (duplicated point 0, unreferenced vertices 1 and 4): the contract still pins the result -/
 example : ∃ m', cloud.crop ⟨3, "Position"⟩ (· > 11) = some m' ∧ CropContract ⟨3, "Position"⟩ (· > 11) cloud m' :=
   ⟨_, rfl, by decide⟩
@@ -183,6 +207,34 @@ theorem scaleAlongNormal_spec {m m' : MeshVal (List s)} {a n : String} {amount :
     · cases hm
       exact ⟨(setAttr_spec m _ _).1, pd, nd, hp, hn, by omega, (setAttr_spec m _ _).2⟩
   · cases hm
+
+/-- vertex by vertex: on a well-formed mesh the new array has one entry per vertex and entry `i` is
+    `p[i] + n[i] * amount` (Go's `positionData.At(i).Add(normalData.At(i).Scale(amount))`) -/
+theorem scaleAlongNormal_vertex {m m' : MeshVal (List s)} (h : WF m) {a n : String} {amount : s} {pd nd : List (List s)}
+    (hp : m.attr? ⟨3, a⟩ = some pd) (hn : m.attr? ⟨3, n⟩ = some nd) (hne : pd ≠ [])
+    (hm : m.scaleAlongNormal a n amount = some m') :
+    ∃ d', m'.attr? ⟨3, a⟩ = some d' ∧ d'.length = m.attrLen ∧
+      ∀ i (h1 : i < d'.length) (h2 : i < pd.length) (h3 : i < nd.length), d'[i] = alongNormal amount pd[i] nd[i] := by
+  obtain ⟨_, pd', nd', hp', hn', hle, hres⟩ := scaleAlongNormal_spec hm
+  rw [hp] at hp'; rw [hn] at hn'
+  cases hp'; cases hn'
+  have e1 : pd.length = m.attrLen := h.1 _ (Attrs.find?_mem hp)
+  have e2 : nd.length = m.attrLen := h.1 _ (Attrs.find?_mem hn)
+  have hlen : (List.zipWith (alongNormal amount) pd nd).length = m.attrLen := by simp [e1, e2]
+  have hnz : (List.zipWith (alongNormal amount) pd nd).isEmpty = false := by
+    cases hz : List.zipWith (alongNormal amount) pd nd with
+    | nil =>
+      rw [hz] at hlen
+      cases pd with
+      | nil => exact absurd rfl hne
+      | cons _ _ => simp at e1 hlen; omega
+    | cons _ _ => rfl
+  rw [hnz] at hres
+  exact ⟨_, hres, hlen, fun i _ _ _ => by simp⟩
+
+/-- non-vacuity: a well-formed cloud with both attributes is accepted -/
+example : ∃ m', (⟨.point, [0, 1], [], [(⟨3, "Position"⟩, [[1, 2, 3], [4, 5, 6]]), (⟨3, "Normal"⟩, [[0, 0, 1], [1, 0, 0]])]⟩ :
+    MeshVal (List Float)).scaleAlongNormal "Position" "Normal" 0.5 = some m' := ⟨_, rfl⟩
 
 omit [DecidableEq s] in
 /-- rejected exactly when one of the two attributes is missing, or the normal array is shorter than the scaled one
